@@ -39,12 +39,12 @@ _END_STMTS = tuple(getattr(F, n) for n in dir(F) if n.startswith("End_") and
                    isinstance(getattr(F, n), type))
 _LITERALS = (F.Real_Literal_Constant, F.Int_Literal_Constant, F.Char_Literal_Constant,
              F.Logical_Literal_Constant, F.Complex_Literal_Constant)
-_UNCLASSIFIED = tuple(getattr(F, n) for n in (
+_UNCLASSIFIED = {
     "Namelist_Stmt", "Common_Stmt", "Equivalence_Stmt", "Data_Stmt", "Entry_Stmt",
     "Stmt_Function_Stmt", "Associate_Construct", "Select_Type_Construct",
     "Forall_Construct", "Forall_Stmt", "Block_Construct", "Enum_Def", "Import_Stmt",
     "Procedure_Declaration_Stmt", "Critical_Construct", "Cray_Pointer_Stmt",
-    "Implicit_Stmt_List") if hasattr(F, n))
+    "Implicit_Stmt_List", "Do_Concurrent_Stmt", "Loop_Control_Concurrent"}
 
 
 def names(node, out, calls=None):
@@ -58,7 +58,7 @@ def names(node, out, calls=None):
         for c in node:
             names(c, out, calls)
         return
-    if isinstance(node, _UNCLASSIFIED):
+    if type(node).__name__ in _UNCLASSIFIED:
         raise Unsupported(type(node).__name__)
     if isinstance(node, _END_STMTS):
         return
